@@ -102,7 +102,10 @@ class Ctx:
         shutil.rmtree(md, ignore_errors=True)
         for f in os.listdir(d):
             if "_TTrace_" in f:
-                os.remove(os.path.join(d, f))
+                try:
+                    os.remove(os.path.join(d, f))
+                except OSError:
+                    pass    # another thread's TLC run in the same scratch dir removed it first
         r = {"rc": p.returncode, "out": out, "wall": time.time() - t0, "generated": 0, "distinct": 0, "depth": 0,
              "violated": None, "postcondition_failed": False, "error": None, "timeout": p.returncode == 124}
         m = re.findall(r"(\d[\d,]*) states generated, (\d[\d,]*) distinct states found", out)
